@@ -20,6 +20,15 @@ with open(os.path.join(os.path.dirname(HERE), "rejections_allowed.json")) as _f:
     _ALLOWED = json.load(_f)["allowed"]
 
 
+def _pick_form(rng, vals):
+    """Constraint spelling: per-index entries or index arrays; a constraint that covers one site
+    at several indices is mostly written as one index-array entry."""
+    pats = {tuple(c for c in p if isinstance(c, str)) for p in vals}
+    if len(vals) > 1 and len(pats) == 1:
+        return "array" if rng.random() < 0.8 else "scalar"
+    return str(rng.choice(["scalar", "array"]))
+
+
 def rejection_allowed(op, mech):
     parts = op.split(":")
     for e in _ALLOWED:
@@ -160,15 +169,18 @@ def run_case(ctx, plan, rng, ci, nops):
     start = str(rng.choice(list(plan.start)))
     rec = None
     if start == "simulate":
-        hist.append(f"simulate args={_short(args)}")
-        out = guarded("simulate", lambda: engine.op_simulate(case, nk(), args))
+        jit_start = rng.random() < 0.25
+        hist.append(f"simulate args={_short(args)}" + (" [under jax.jit]" if jit_start else ""))
+        if jit_start:
+            ctx.count("traces:simulate-under-jit")
+        out = guarded("simulate", lambda: engine.op_simulate(case, nk(), args, jit=jit_start))
         if out is None:
             return
         rec, issues = out
         route("simulate", issues)
     else:
         vals = engine.gen_constraint(rng, case, None, args, only_live=False)
-        form = str(rng.choice(["scalar", "array"]))
+        form = _pick_form(rng, vals)
         hist.append(f"importance constraint={_short(vals)} form={form} args={_short(args)}")
         out = guarded("importance", lambda: engine.op_importance(case, nk(), vals, args, form=form))
         if out is None:
@@ -233,7 +245,7 @@ def h_update(ctx, plan, case, rec, rng, nk, hist, route, guarded, bwd=True):
     if not change_args:
         tags = "nochange" if rng.random() < 0.6 else None
     vals = engine.gen_constraint(rng, case, rec, rec.args)
-    form = str(rng.choice(["scalar", "array"]))
+    form = _pick_form(rng, vals)
     hist.append(f"update constraint={_short(vals)} form={form} new_args={_short(new_args)} tags={tags}")
     out = guarded("update", lambda: engine.op_update(case, rec, nk(), vals, new_args, tags, form=form))
     if out is None:
